@@ -287,15 +287,15 @@ def parseName (s : Str) (origin : Option Name) : ZR Name :=
 
 def upper (s : Str) : Str := s.map fun c => if 97 ≤ c ∧ c ≤ 122 then c - 32 else c
 
-def strOf (s : String) : Str := s.toList.map Char.toNat
+/-! mnemonics as character codes (no `String`, so that the kernel can evaluate the model) -/
 
 /-- `DNSClass::from_str` (on the upper-cased token) → class code -/
 def classOfStr (s : Str) : Option Nat :=
-  if s = strOf "IN" then some 1
-  else if s = strOf "CH" then some 3
-  else if s = strOf "HS" then some 4
-  else if s = strOf "NONE" then some 254
-  else if s = strOf "ANY" ∨ s = strOf "*" then some 255
+  if s = [73, 78] then some 1            -- IN
+  else if s = [67, 72] then some 3       -- CH
+  else if s = [72, 83] then some 4       -- HS
+  else if s = [78, 79, 78, 69] then some 254   -- NONE
+  else if s = [65, 78, 89] ∨ s = [42] then some 255   -- ANY, *
   else none
 
 inductive RType where
@@ -310,28 +310,54 @@ def RType.code : RType → Nat
   | .a => 1 | .ns => 2 | .cname => 5 | .soa => 6 | .ptr => 12 | .mx => 15 | .txt => 16
   | .aaaa => 28 | .srv => 33 | .aname => 65305 | .refused => 0 | .other => 0
 
-def refusedNames : List String :=
-  ["AXFR", "CDNSKEY", "CDS", "DNSKEY", "KEY", "NSEC", "NSEC3", "NSEC3PARAM", "NULL", "RRSIG",
-   "SIG", "TSIG", "ANY", "*"]
+/-- mnemonics `RecordType::from_str` knows and `RData::from_tokens` refuses unconditionally -/
+def refusedNames : List Str :=
+  [[65, 88, 70, 82],  -- AXFR
+   [67, 68, 78, 83, 75, 69, 89],  -- CDNSKEY
+   [67, 68, 83],  -- CDS
+   [68, 78, 83, 75, 69, 89],  -- DNSKEY
+   [75, 69, 89],  -- KEY
+   [78, 83, 69, 67],  -- NSEC
+   [78, 83, 69, 67, 51],  -- NSEC3
+   [78, 83, 69, 67, 51, 80, 65, 82, 65, 77],  -- NSEC3PARAM
+   [78, 85, 76, 76],  -- NULL
+   [82, 82, 83, 73, 71],  -- RRSIG
+   [83, 73, 71],  -- SIG
+   [84, 83, 73, 71],  -- TSIG
+   [65, 78, 89],  -- ANY
+   [42]  -- *
+  ]
 
-def otherNames : List String :=
-  ["CAA", "CERT", "CSYNC", "DS", "HINFO", "HTTPS", "NAPTR", "OPENPGPKEY", "SMIMEA", "SSHFP",
-   "SVCB", "TLSA"]
+/-- mnemonics that are parseable by hickory and not modelled here -/
+def otherNames : List Str :=
+  [[67, 65, 65],  -- CAA
+   [67, 69, 82, 84],  -- CERT
+   [67, 83, 89, 78, 67],  -- CSYNC
+   [68, 83],  -- DS
+   [72, 73, 78, 70, 79],  -- HINFO
+   [72, 84, 84, 80, 83],  -- HTTPS
+   [78, 65, 80, 84, 82],  -- NAPTR
+   [79, 80, 69, 78, 80, 71, 80, 75, 69, 89],  -- OPENPGPKEY
+   [83, 77, 73, 77, 69, 65],  -- SMIMEA
+   [83, 83, 72, 70, 80],  -- SSHFP
+   [83, 86, 67, 66],  -- SVCB
+   [84, 76, 83, 65]  -- TLSA
+  ]
 
 /-- `RecordType::from_str` (on the upper-cased token) -/
 def typeOfStr (s : Str) : Option RType :=
-  if s = strOf "A" then some .a
-  else if s = strOf "AAAA" then some .aaaa
-  else if s = strOf "ANAME" then some .aname
-  else if s = strOf "CNAME" then some .cname
-  else if s = strOf "MX" then some .mx
-  else if s = strOf "NS" then some .ns
-  else if s = strOf "PTR" then some .ptr
-  else if s = strOf "SOA" then some .soa
-  else if s = strOf "SRV" then some .srv
-  else if s = strOf "TXT" then some .txt
-  else if refusedNames.any (fun n => s = strOf n) then some .refused
-  else if otherNames.any (fun n => s = strOf n) then some .other
+  if s = [65] then some .a
+  else if s = [65, 65, 65, 65] then some .aaaa
+  else if s = [65, 78, 65, 77, 69] then some .aname
+  else if s = [67, 78, 65, 77, 69] then some .cname
+  else if s = [77, 88] then some .mx
+  else if s = [78, 83] then some .ns
+  else if s = [80, 84, 82] then some .ptr
+  else if s = [83, 79, 65] then some .soa
+  else if s = [83, 82, 86] then some .srv
+  else if s = [84, 88, 84] then some .txt
+  else if refusedNames.contains s then some .refused
+  else if otherNames.contains s then some .other
   else none
 
 inductive RData where
@@ -603,17 +629,23 @@ def parseLoop (lx : Lexer) (cx : Ctx) (st : PState) : ZR (Ctx × PState) :=
     else .panic "hang:parse-loop"
 termination_by lx.txt.length
 
+/-- the end of `Parser::parse`: "Extra flush at the end for the case of missing endline", then the
+`$ORIGIN was not specified` check -/
+def finish (r : Ctx × PState) : ZR (Name × List (Key × RSet)) :=
+  let cx' : ZR Ctx := match r.2 with
+    | .record parts => r.1.insert parts
+    | _ => .ok r.1
+  cx'.bind fun cx =>
+    match cx.origin with
+    | some o => .ok (o, cx.records)
+    | none => .err
+
+/-- the context `Parser::new(_, None, origin)` starts with (`origin.set_fqdn(true)`) -/
+def initCtx (origin : Option Name) : Ctx :=
+  { origin := origin.map fun o => { o with fqdn := true } }
+
 /-- `Parser::new(text, None, Some(origin)).parse()` : (final origin, record sets in insertion order) -/
 def parse (text : Str) (origin : Option Name) : ZR (Name × List (Key × RSet)) :=
-  let origin := origin.map fun o => { o with fqdn := true }
-  (parseLoop (Lexer.new text) { origin := origin } .startLine).bind fun (cx, st) =>
-    -- "Extra flush at the end for the case of missing endline"
-    let cx' : ZR Ctx := match st with
-      | .record parts => cx.insert parts
-      | _ => .ok cx
-    cx'.bind fun cx =>
-      match cx.origin with
-      | some o => .ok (o, cx.records)
-      | none => .err
+  (parseLoop (Lexer.new text) (initCtx origin) .startLine).bind finish
 
 end HickoryVerif.ZoneParse
